@@ -235,6 +235,29 @@ def build_array(table, byteorder='='):
     return a
 
 
+def relayout_fields(a, kind, seed=0):
+    """The same record array (field names in the same order, same values bit for bit) in another memory layout:
+    'aligned' (C-struct alignment, padding between fields), 'view_permuted' (a multi-field view a[[names]] of a wider array
+    whose fields are stored in another order: offsets are not increasing with the field order, itemsize is larger)."""
+    names = list(a.dtype.names or [])
+    if kind == 'packed' or not names:
+        return a
+    if kind == 'aligned':
+        b = np.zeros(a.shape, dtype=np.dtype([(n, a.dtype[n]) for n in names], align=True))
+    else:
+        import random
+        perm = list(names)
+        random.Random(seed).shuffle(perm)
+        if perm == names and len(names) > 1:
+            perm = perm[::-1]
+        store = [(n, a.dtype[n]) for n in perm]
+        store.insert(len(store) // 2, ('pad_zz', 'u1', (3,)))
+        b = np.zeros(a.shape, dtype=store)
+    for n in names:
+        b[n] = a[n]
+    return b if kind == 'aligned' else b[names]
+
+
 def writer_enums(case):
     if not case.get('enums'):
         return None
